@@ -687,10 +687,10 @@ func init() {
 	Register(&StreamProp{
 		id: "C12",
 		meta: Meta{Level: "exploration",
-			Rule:        "same typing-history stream as C01 restricted to HoverAtPos at every cursor: a non-nil hover must have non-empty content, no accompanying error, a well-formed range (position table) for the requested file that contains the cursor (start <= cursor <= end). Content of dependent-body elements is cross-checked in C16 (marker descriptions). distinct non-trivial = distinct (AST node kind under the cursor, mutation kind, first word of the content) with a hover.",
+			Rule:        "same typing-history stream as C01 restricted to HoverAtPos at every cursor: a non-nil hover must have non-empty content, no accompanying error, a well-formed range (position table) for the requested file that contains the cursor (start <= cursor <= end). Element-specific half: the cursor is classified from the AST with the model's effective schema (M-eff); strictly inside a known attribute name / block type / label the hover must exist, name the element, carry the description of the effective schema (dependent body for key labels) and have exactly the whole attribute / the type keyword / the label as range; on an attribute the effective schema does not know there must be none; inside a value the range must stay within the attribute's expression. distinct non-trivial = distinct (AST node kind under the cursor, mutation kind, first word of the content) with a hover.",
 			Assumptions: []string{"a cursor exactly at the end of the hover range is accepted as contained (counted separately in the evidence)"},
 			Floor:       map[string]int{"quick": 50, "thorough": 100}, CaseBudget: 60},
-		oracles:      []Oracle{oracleHover},
+		oracles:      []Oracle{oracleHover, oracleHoverElements},
 		kinds:        []core.QKind{core.QHover},
 		chunks:       map[string]int{"quick": 8, "thorough": 16},
 		nGenQuick:    24,
@@ -701,10 +701,10 @@ func init() {
 	Register(&StreamProp{
 		id: "C13",
 		meta: Meta{Level: "exploration",
-			Rule:        "same typing-history stream as C01 restricted to SemanticTokensInFile on every file state (base, byte prefixes, single-token edits): tokens sorted by start, pairwise non-overlapping, non-empty, of an advertised type, each with a well-formed range of the requested file (position table). That exactly the schema-known elements are marked is cross-checked for dependent-body marker attributes in C16. distinct non-trivial = file states with >= 3 token types, keyed by (source, file, mutation).",
+			Rule:        "same typing-history stream as C01 restricted to SemanticTokensInFile on every file state (base, byte prefixes, single-token edits): tokens sorted by start, pairwise non-overlapping, non-empty, of an advertised type, each with a well-formed range of the requested file (position table). Exactness of the structure tokens: a model walk of the AST with the effective schema (M-eff) lists every known attribute name, block type and label with the modifiers of the element and of all enclosing blocks; the attrName/blockType/blockLabel tokens must be exactly those (none for unknown attributes, unknown blocks, surplus labels) and every value token must lie inside the value of a known attribute. Which value tokens appear inside a known value is not modelled. distinct non-trivial = file states with >= 3 token types, keyed by (source, file, mutation).",
 			Assumptions: []string{"exactness of the token set beyond the C16 markers is not decided by this check"},
 			Floor:       map[string]int{"quick": 50, "thorough": 100}, CaseBudget: 60},
-		oracles:      []Oracle{oracleTokens},
+		oracles:      []Oracle{oracleTokens, oracleTokenStructure},
 		kinds:        []core.QKind{core.QSemTokens},
 		chunks:       map[string]int{"quick": 8, "thorough": 16},
 		nGenQuick:    24,
